@@ -512,3 +512,65 @@ func funcByName(p *Program, pkgSuffix, name string) *ssa.Function {
 	}
 	return found
 }
+
+// ruleArgsImmutable: no first-party code stores into the elements of a slice
+// that may be a plugin's configured argument list (config.PluginConfig.Args):
+// the list handed to the setup functions is the one written in the file.
+// Slices are followed through copies, parameters and helper results
+// (flow-insensitive may-alias).
+func ruleArgsImmutable(c *Ctx, rule string) {
+	isArgs := func(t types.Type, idx int) bool {
+		f := fieldOf(t, idx)
+		return f != nil && f.Name() == "Args" && strings.HasSuffix(namedOf(t), "/config.PluginConfig")
+	}
+	n := 0
+	nbad := 0
+	for _, fn := range c.P.SrcFuncs() {
+		if isFixture(fn) {
+			continue
+		}
+		eachOwnInstr(fn, func(in ssa.Instruction) {
+			var dst ssa.Value
+			switch x := in.(type) {
+			case *ssa.Store:
+				if ia, ok := x.Addr.(*ssa.IndexAddr); ok {
+					if _, isSlice := ia.X.Type().Underlying().(*types.Slice); isSlice {
+						dst = ia.X
+					}
+				}
+			case *ssa.Call:
+				if bi, ok := x.Call.Value.(*ssa.Builtin); ok && bi.Name() == "copy" && len(x.Call.Args) > 0 {
+					dst = x.Call.Args[0]
+				}
+			}
+			if dst == nil {
+				return
+			}
+			sl, ok := dst.Type().Underlying().(*types.Slice)
+			if !ok {
+				return
+			}
+			if b, ok := sl.Elem().Underlying().(*types.Basic); !ok || b.Kind() != types.String {
+				return
+			}
+			n++
+			for _, l := range mayLeaves(c.P, dst) {
+				hit := false
+				switch y := l.(type) {
+				case *ssa.Field:
+					hit = isArgs(y.X.Type(), y.Field)
+				case *ssa.UnOp:
+					if fa, ok := y.X.(*ssa.FieldAddr); ok {
+						hit = isArgs(fa.X.Type(), fa.Field)
+					}
+				}
+				if hit {
+					nbad++
+					c.R.bad(rule, fmt.Sprintf("%s writes plugin arguments#%d", shortFn(fn), nbad), c.P.InstrPos(in), shortFn(fn), "an element of a slice that may be a plugin's configured argument list is overwritten: the setup function no longer receives the arguments written in the file")
+					return
+				}
+			}
+		})
+	}
+	c.R.ok(rule, "element stores into []string", "-", "-", fmt.Sprintf("%d first-party element stores / copies into string slices examined: none may alias a PluginConfig.Args", n))
+}
